@@ -388,7 +388,7 @@ ssize_t write(int fd, const void *buf, size_t count) {
 /* ===========================================================================================
  * Engine E3: a deterministic scheduler for the REAL binary's REAL threads.
  *
- * Enabled by an "S" line in the plan (S random|sticky|trace <seed> <param> <max_steps> <tail_request_bound>
+ * Enabled by an "S" line in the plan (S random|sticky|pct|stall|trace <seed> <param> <max_steps> <tail_request_bound> [<horizon>]
  * and, for "trace", C lines with the thread ids to run). Exactly one thread (the token holder) runs
  * user code at any instant; every other thread is parked on its own condition variable inside this
  * shim. The token moves only at intercepted calls, where a seeded PRNG (or the recorded trace) picks
@@ -434,6 +434,12 @@ static int s_trace[MAX_STEPS];
 static size_t s_trace_n, s_trace_i;
 static unsigned long long s_hash = 0xcbf29ce484222325ULL;
 static long long sim_ns;
+/* pct: per-thread priorities (higher runs first), up to 8 change points at seeded steps within
+ * the horizon where the running thread drops below everyone else. stall: random walk plus up to
+ * 8 long preemptions (a seeded thread is frozen for a seeded number of decisions while others can run). */
+static unsigned long s_prio[MAXT];
+static long s_horizon = 256, s_change[8], s_nchange, s_low = 1000;
+static long s_stall_at[8], s_stall_len[8], s_nstall, s_frozen = -1, s_frozen_until;
 
 static long raw6(long n, long a, long b, long c, long d, long e, long f) {
     long ret;
@@ -489,7 +495,20 @@ static void e3_parse(const char *rest) {
     long ms = strtol(end, &end, 10);
     if (ms > 0) s_max_steps = ms;
     s_tail_bound = strtol(end, &end, 10);
+    long hz = strtol(end, &end, 10);
+    if (hz > 0) s_horizon = hz;
     for (int k = 0; k < 4; k++) s_rng[k] = sm64(&seed);
+    if (!strcmp(s_policy, "pct")) {
+        s_nchange = s_param > 8 ? 8 : s_param;
+        for (int k = 0; k < s_nchange; k++) s_change[k] = 1 + (long)(rng_next() % (unsigned long)s_horizon);
+        s_prio[0] = 2000 + (rng_next() & 0xffffff);
+    } else if (!strcmp(s_policy, "stall")) {
+        s_nstall = s_param > 8 ? 8 : s_param;
+        for (int k = 0; k < s_nstall; k++) {
+            s_stall_at[k] = 1 + (long)(rng_next() % (unsigned long)s_horizon);
+            s_stall_len[k] = 4 + (long)(rng_next() % (rng_next() % 2 ? 40 : 2000));
+        }
+    }
     sched_on = 1;
 }
 
@@ -511,6 +530,20 @@ static int pick_next(int yielding) {
             if (chosen < 0) chosen = cur_ok ? cur : ids[0];
         } else if (!strcmp(s_policy, "sticky") && cur_ok && !yielding && (long)(rng_next() % 256) < s_param) {
             chosen = cur;
+        } else if (!strcmp(s_policy, "pct")) {
+            /* a change point, and an explicit yield (a poller must not starve everyone), demote the running thread */
+            int demote = yielding;
+            for (int k = 0; k < s_nchange; k++) if (s_change[k] == s_steps) demote = 1;
+            if (demote && cur_ok && s_low > 1) s_prio[cur] = (unsigned long)--s_low;
+            chosen = ids[0];
+            for (int i = 1; i < n; i++) if (s_prio[ids[i]] > s_prio[chosen]) chosen = ids[i];
+        } else if (!strcmp(s_policy, "stall")) {
+            for (int k = 0; k < s_nstall; k++)
+                if (s_stall_at[k] == s_steps && cur_ok) { s_frozen = cur; s_frozen_until = s_steps + s_stall_len[k]; }
+            if (s_frozen >= 0 && s_steps >= s_frozen_until) s_frozen = -1;
+            int m = 0, ids2[MAXT];
+            for (int i = 0; i < n; i++) if (ids[i] != s_frozen) ids2[m++] = ids[i];
+            chosen = m > 0 ? ids2[rng_next() % (unsigned)m] : ids[0];
         } else {
             chosen = ids[rng_next() % (unsigned)n];
         }
@@ -593,6 +626,7 @@ int pthread_create(pthread_t *thread, const pthread_attr_t *attr, void *(*fn)(vo
     if (nthr >= MAXT) { pthread_mutex_unlock(&G); errno = EAGAIN; return EAGAIN; }
     int id = nthr++;
     T[id].state = T_RUNNABLE; T[id].fn = fn; T[id].arg = arg;
+    if (!strcmp(s_policy, "pct")) s_prio[id] = 2000 + (rng_next() & 0xffffff);
     pthread_cond_init(&T[id].cv, NULL);
     e3_log2("B", id, -1);
     pthread_mutex_unlock(&G);
